@@ -394,6 +394,13 @@ func runD(r *verifsim.Run) {
 		r.Set(fmt.Sprintf("conn%d", i), fmt.Sprintf("%s %dx%d@%d framesize=%d frames=%d tail=%d chunks=%v pause=%d/%dmin", c.Model, c.W, c.H, c.Fps, c.FrameSize, c.N, c.Tail, c.Chunks, c.PauseAfter, c.PauseMin))
 	}
 	res := execD(r, conns, true)
+	{
+		var fl []string
+		for _, f := range res.Files {
+			fl = append(fl, fmt.Sprintf("%s:%d", f.Name, len(f.Frames)))
+		}
+		r.Logf("steps=%d switches=%d sig=%016x files=%v", res.Steps, res.Switches, res.Sig, fl)
+	}
 	r.Count("steps", res.Steps)
 	r.Count("context_switches", res.Switches)
 	r.SimTime(res.Sim)
